@@ -110,7 +110,18 @@ Definition exec (q : pquirks) (s : pstate) (l : list pstep) : pstate := fold_lef
 
 (* ---- the steps as the harness drives them: after each harness step every goroutine has run to its next
         blocking point, so a new notifier takes a free notifyMu at once and waiters take it in arrival order ---- *)
-Inductive hstep := HPub | HW (i : N) | HR (i : N) | HT | HCrash | HRewind (sp : N) | HWFail (i : N).
+(* HR o: which parked Remove call the harness released is OBSERVED data (o = the ids of the call it found at its
+   gate, None = none had arrived): when a spawned Remove actually reaches the storage - at once, or only after the
+   notification of the same publication was delivered - is the implementation's business; every such order is an
+   interleaving of the R steps the theorems quantify over. *)
+Inductive hstep := HPub | HW (i : N) | HR (o : option (list N)) | HT | HCrash | HRewind (sp : N) | HWFail (i : N).
+
+Definition same_ids (a b : list N) : bool := forallb (fun x => mem x b) a && forallb (fun x => mem x a) b.
+Fixpoint find_rm (ids : list N) (l : list (list N)) (k : nat) : option nat :=
+  match l with
+  | [] => None
+  | x :: l' => if same_ids ids x then Some k else find_rm ids l' (S k)
+  end.
 
 Definition pick {A} (i : N) (l : list A) : option (nat * A) :=
   match l with
@@ -133,10 +144,14 @@ Definition hexec1 (q : pquirks) (s : pstate) (h : hstep) : pstate * hobs :=
       | Some (_, n) => (settle_notifiers q (exec q s [W n; U n]), OW (Some n))
       | None => (s, OW None)
       end
-  | HR i =>
-      match pick i (pend_rm s) with
-      | Some (k, ids) => (exec1 q s (R k), OR (Some ids))
+  | HR o =>
+      match o with
       | None => (s, OR None)
+      | Some ids =>
+          match find_rm ids (pend_rm s) 0 with
+          | Some k => (exec1 q s (R k), OR (Some ids))
+          | None => (s, OR None)   (* no such Remove was spawned: the comparison reports it *)
+          end
       end
   | HT =>
       match nhold s with
